@@ -1,5 +1,6 @@
 import JunoModel.Common.Proto
 import JunoModel.C10.Model
+import JunoModel.C10.ModelR5
 /-!
 Line-protocol driver for the C10 model (`lake build c10drv`).
 
@@ -28,6 +29,24 @@ it looks the value up in the table built from these facts.
   `r2 <rcfg> multi <root> <firstbits> <keybits=value>* | <node>* | <a:b:h>*` — the general case (the
   last part: hash evaluations of the trie's own nodes, needed to rehash the rebuilt trie);
   `<rcfg>` = five digits `<checkHash><earlyValue><leafHash><zeroRoot><unsetLeaf>` (`RCfg`); answer `ok <more 0|1>` | `err`.
+
+* `r2f <rcfg> <ck 0|1> <root> <firstkey> proof|noproof <key=value>* | <node>* | <a:b:h>*` — the WHOLE
+  `trie2.VerifyRangeProof` (`verifyRange`): preamble, dispatch and key conversion are the model's; keys are
+  felts (`<bits>` or `+<bits>` = `2^height +` the bits' value), `<ck>` = keys `≥ 2^height` are refused.
+
+* `pr <legacy 0|1> <height> <leftbits> <rightbits> <keybits=value>* | <a:b:h>*` — `GetRangeProof(left, right)`
+  (`rangeProve`) on the trie of the key/value set: answer `root <felt> <node>*` in the order of the set.
+* `blk <latest|pre_confirmed|l1_accepted|number|hash> <number|hash|-> <height> <number the hash resolves to|->` —
+  `isBlockSupported`; answer `ok` | `preconfirmed` | `notfound` | `notsupported`.
+* `rpc <legacy 0|1> <height> <block id kind> <number|hash|-> <chain height> <resolved number|-> | <section>*` — the
+  response of `Handler.StorageProof` (`isBlockSupported`, then `storageProof`).
+  Sections (separated by `|`, first word = tag): `C <keybits=value>*` classes trie, `T <keybits=value>*` contracts
+  trie, `I <addr:class:nonce>*` contracts that exist, `S <addr> <keybits=value>*` one storage trie,
+  `Q <felt>*` requested classes, `A <felt>*` requested contracts, `K <addr|-> <felt>*` one entry of
+  contracts_storage_keys (in request order), `FP <a:b:h>*` Pedersen evaluations, `FQ <a:b:h>*` Poseidon evaluations.
+  Answer: `ok roots <contracts root> <classes root> cp <wnode>* np <wnode>* ld <n | class:nonce:storage root>*
+  (sp <wnode>*)*` with `<wnode>` = `B:<hash>:<left>:<right>` | `E:<hash>:<pathbits>:<child>`, or
+  `err:block:<class>` | `err:missing-contract` | `err:missing-keys`.
 
 Answers of `vL`/`v2`: `ok <felt>` | `err:notfound` | `err:mismatch` | `err:keylen` | `err:earlyvalue` |
 `err:fuel`; malformed request: `bad-op`.
@@ -202,6 +221,106 @@ def multiTrie (A : HashAlg Nat) (rc : RCfg) (root : Nat) (first : Path) (kvs : L
         | none => none
         | some t2 => fill A rc t2 (.at first) (.at lastKV.1) first.length false kvs
 
+/-- split a token list at every `|` -/
+def sections (toks : List String) : List (List String) :=
+  toks.foldr (fun t acc => match acc with
+    | [] => if t == "|" then [[], []] else [[t]]
+    | cur :: rest => if t == "|" then [] :: cur :: rest else (t :: cur) :: rest) [[]]
+
+def showBlk : BlkRes → String
+  | .ok => "ok"
+  | .callOnPreConfirmed => "preconfirmed"
+  | .blockNotFound => "notfound"
+  | .notSupported => "notsupported"
+
+def parseBlk : String → Option BlkRes
+  | "ok" => some .ok
+  | "preconfirmed" => some .callOnPreConfirmed
+  | "notfound" => some .blockNotFound
+  | "notsupported" => some .notSupported
+  | _ => none
+
+def showWNode (e : Nat × WNode Nat) : String :=
+  match e.2 with
+  | .bin l r => "B:" ++ natToHex e.1 ++ ":" ++ natToHex l ++ ":" ++ natToHex r
+  | .edge p c => "E:" ++ natToHex e.1 ++ ":" ++ showBits p ++ ":" ++ natToHex c
+
+def showLeaf : Option (Leaf Nat) → String
+  | none => "n"
+  | some l => natToHex l.cls ++ ":" ++ natToHex l.nonce ++ ":" ++ natToHex l.sroot
+
+structure RpcIn where
+  classes : List (Path × Nat) := []
+  contracts : List (Path × Nat) := []
+  info : List (Nat × CInfo Nat) := []
+  storage : List (Nat × List (Path × Nat)) := []
+  q : List Nat := []
+  a : List Nat := []
+  k : List SK := []
+  fp : List ((Nat × Nat) × Nat) := []
+  fq : List ((Nat × Nat) × Nat) := []
+
+def parseInfo (tok : String) : Option (Nat × CInfo Nat) :=
+  match tok.splitOn ":" with
+  | [a, c, n] => do
+    let a ← hexToNat? a
+    let c ← hexToNat? c
+    let n ← hexToNat? n
+    pure (a, ⟨c, n⟩)
+  | _ => none
+
+def parseRpcSection (inp : RpcIn) (sec : List String) : Option RpcIn :=
+  match sec with
+  | [] => some inp
+  | "C" :: rest => (parseAll parseKV rest).map (fun x => { inp with classes := x })
+  | "T" :: rest => (parseAll parseKV rest).map (fun x => { inp with contracts := x })
+  | "I" :: rest => (parseAll parseInfo rest).map (fun x => { inp with info := x })
+  | "S" :: addr :: rest => do
+    let a ← hexToNat? addr
+    let kvs ← parseAll parseKV rest
+    pure { inp with storage := inp.storage ++ [(a, kvs)] }
+  | "Q" :: rest => (parseAll hexToNat? rest).map (fun x => { inp with q := x })
+  | "A" :: rest => (parseAll hexToNat? rest).map (fun x => { inp with a := x })
+  | "K" :: addr :: rest => do
+    let c ← if addr == "-" then some none else (hexToNat? addr).map some
+    let ks ← parseAll hexToNat? rest
+    pure { inp with k := inp.k ++ [⟨c, ks⟩] }
+  | "FP" :: rest => (parseAll parseFact rest).map (fun x => { inp with fp := x })
+  | "FQ" :: rest => (parseAll parseFact rest).map (fun x => { inp with fq := x })
+  | _ => none
+
+def rpcAnswer (legacy : Bool) (h : Nat) (blk : BlkRes) (inp : RpcIn) : String :=
+  let st : RState Nat := {
+    classes := build h inp.classes
+    contracts := build h inp.contracts
+    info := fun a => (inp.info.find? (fun e => e.1 == a)).map (·.2)
+    storageOf := fun a => match inp.storage.find? (fun e => e.1 == a) with
+      | some e => build h e.2
+      | none => none }
+  match storageProof (tableAlg inp.fq) (tableAlg inp.fp) legacy h st blk inp.q inp.a inp.k with
+  | .block e => "err:block:" ++ showBlk e
+  | .missingContract => "err:missing-contract"
+  | .missingKeys => "err:missing-keys"
+  | .ok r =>
+    "ok roots " ++ natToHex r.contractsRoot ++ " " ++ natToHex r.classesRoot ++
+      " cp" ++ String.join (r.classesProof.map (fun e => " " ++ showWNode e)) ++
+      " np" ++ String.join (r.contractsProof.map (fun e => " " ++ showWNode e)) ++
+      " ld" ++ String.join (r.leaves.map (fun l => " " ++ showLeaf l)) ++
+      String.join (r.storageProofs.map (fun w => " sp" ++ String.join (w.map (fun e => " " ++ showWNode e))))
+
+def parseBlockId (kind arg : String) : Option BlockId :=
+  match kind with
+  | "latest" => some .latest
+  | "pre_confirmed" => some .preConfirmed
+  | "l1_accepted" => some .l1Accepted
+  | "number" => arg.toNat?.map .number
+  | "hash" => (hexToNat? arg).map .hash
+  | _ => none
+
+/-- the number `BlockNumberByHash` gives for the hash of the request: `-` = not found -/
+def parseResolved (s : String) : Option (Option Nat) :=
+  if s == "-" then some none else s.toNat?.map some
+
 def step (s : Unit) (line : String) : Unit × String :=
   match words line with
   | "vL" :: cfg :: root :: key :: nodes =>
@@ -250,6 +369,45 @@ def step (s : Unit) (line : String) : Unit × String :=
         parseAll parseFact factToks with
     | some f, some root, some first, some kvs, some (ps, tbl), some facts =>
       (s, showRRes (verifyMulti (tableAlg (tbl ++ facts)) f root first kvs ps))
+    | _, _, _, _, _, _ => (s, "bad-op")
+  | ["blk", kind, arg, height, resolved] =>
+    match parseBlockId kind arg, height.toNat?, parseResolved resolved with
+    | some id, some h, some res => (s, showBlk (isBlockSupported id h (fun _ => res)))
+    | _, _, _ => (s, "bad-op")
+  | "rpc" :: legacy :: height :: kind :: arg :: chainHeight :: resolved :: rest =>
+    match height.toNat?, parseBlockId kind arg, chainHeight.toNat?, parseResolved resolved,
+        (sections rest).foldl (fun acc sec => acc.bind (fun i => parseRpcSection i sec)) (some {}) with
+    | some h, some id, some ch, some res, some inp =>
+      if legacy != "0" && legacy != "1" then (s, "bad-op")
+      else (s, rpcAnswer (legacy == "1") h (isBlockSupported id ch (fun _ => res)) inp)
+    | _, _, _, _, _ => (s, "bad-op")
+  | "pr" :: legacy :: height :: left :: right :: rest =>
+    let (kvToks, factToks) := splitAtBar rest
+    match height.toNat?, parseBits left, parseBits right, parseAll parseKV kvToks, parseAll parseFact factToks with
+    | some h, some l, some r, some kvs, some tbl =>
+      if legacy != "0" && legacy != "1" then (s, "bad-op") else
+      let A := tableAlg tbl
+      let t : Trie Nat := build h kvs
+      let ps := rangeProve A (legacy == "1") h t (pathVal l) (pathVal r)
+      (s, "root " ++ natToHex (t.hash A) ++ String.join (ps.map (fun e => " " ++ showNode e)))
+    | _, _, _, _, _ => (s, "bad-op")
+  | "r2f" :: cfg :: ck :: root :: first :: mode :: rest =>
+    let (kvToks, rest2) := splitAtBar rest
+    let (nodeToks, factToks) := splitAtBar rest2
+    let parseFKV : String → Option (Nat × Nat) := fun tok =>
+      match tok.splitOn "=" with
+      | [k, v] => do
+        let (_, k) ← parseKey k
+        let v ← hexToNat? v
+        pure (k, v)
+      | _ => none
+    match parseRCfg cfg, hexToNat? root, parseKey first, parseAll parseFKV kvToks, parseNodes nodeToks,
+        parseAll parseFact factToks with
+    | some f, some root, some (h, first), some kvs, some (ps, tbl), some facts =>
+      if (ck != "0" && ck != "1") || (mode != "proof" && mode != "noproof") then (s, "bad-op")
+      else
+        (s, showRRes (verifyRange (tableAlg (tbl ++ facts)) f (ck == "1") h root first kvs
+          (if mode == "proof" then some ps else none)))
     | _, _, _, _, _, _ => (s, "bad-op")
   | "pv" :: legacy :: cached :: height :: key :: rest =>
     let (kvToks, factToks) := splitAtBar rest
